@@ -305,6 +305,20 @@ func gridBuildStart(k string) (*document.Document, *document.Table) {
 			return gridReopen(d)
 		}
 		return d, t
+	case "vv4":
+		d, t := gridFresh(4, 2)
+		gridMust(t.MergeCellsVertical(0, 1, 0))
+		gridMust(t.MergeCellsVertical(2, 3, 0))
+		return d, t
+	case "nn3":
+		d, t := gridFresh(2, 2)
+		in1, err := t.AddNestedTable(0, 0, &document.TableConfig{Rows: 2, Cols: 1, Width: 600})
+		gridMust(err)
+		gridMust(in1.SetCellText(1, 0, "mid"))
+		in2, err := in1.AddNestedTable(0, 0, &document.TableConfig{Rows: 2, Cols: 1, Width: 300})
+		gridMust(err)
+		gridMust(in2.SetCellText(1, 0, "inner"))
+		return d, t
 	case "n2":
 		d, t := gridFresh(2, 2)
 		_, err := t.AddNestedTable(0, 0, &document.TableConfig{Rows: 1, Cols: 1, Width: 600})
